@@ -164,7 +164,7 @@ impl ValueMetadata {
     pub fn with_expiration(expires_in: Duration) -> Self {
         let now = Instant::now();
         ValueMetadata {
-            expires_at: Some(now + expires_in),
+            expires_at: Some(deadline_after(now, expires_in)),
             created_at: now,
             last_accessed: now,
             encoding: StringEncoding::Raw,
@@ -185,13 +185,20 @@ impl ValueMetadata {
     
     /// Set expiration time
     pub fn set_expiration(&mut self, expires_in: Duration) {
-        self.expires_at = Some(Instant::now() + expires_in);
+        self.expires_at = Some(deadline_after(Instant::now(), expires_in));
     }
     
     /// Clear expiration
     pub fn clear_expiration(&mut self) {
         self.expires_at = None;
     }
+}
+
+/// Deadline `expires_in` after `now`. `Instant + Duration` panics when the result cannot be
+/// represented; a TTL that large (e.g. EX 18446744073709551615) is clamped to about 100 years.
+pub fn deadline_after(now: Instant, expires_in: Duration) -> Instant {
+    const FAR_FUTURE: Duration = Duration::from_secs(100 * 365 * 24 * 60 * 60);
+    now.checked_add(expires_in.min(FAR_FUTURE)).unwrap_or(now)
 }
 
 impl StoredValue {
